@@ -1015,6 +1015,9 @@ def c01_rate_search(rp, seed):
     sizes = [len(x) for x in rp["game"]]
     for _ in range(200):
         r2 = dict(rp, game=rand_game(rnd, sizes), params=_std_params(tau=rnd.choice([0.0, 25 / 300, 1.0])))
+        if rp.get("t") is not None:
+            # a per-call tau: zero (falsy) is where an `or` / truthiness test goes wrong
+            r2["t"] = enc(rnd.choice([0.0, 0.0, 0, 0.5, 25 / 300]))
         try:
             bad, msg = c01_rate(r2)
         except Exception:  # noqa: BLE001
